@@ -10,7 +10,19 @@
 //     denote exactly those bytes;
 //   - final coverage: exactly the bytes of executable files no step measured,
 //     reported at the last step;
-//   - issues: exactly the failures the flow description implies, in order.
+//   - issues: exactly the failures the flow description implies, in order;
+//   - the verdicts are a function of the flow: the validators run one after
+//     another on ONE log (validator.All(), pcr0tool validate_security), so every
+//     pass over that log is judged against the same expectation, and the log must
+//     say the same (every reference the same ranges, in any order) after a
+//     validator ran as before.
+//
+// A failure is blamed on aliasing (the validators sort and append to range arrays
+// that belong to the log) exactly when the log no longer says what it said before
+// the validators ran.  Such a failure is the listed finding
+// C10-shared-backing-append only if the log has a range slice with fewer than two
+// elements and spare capacity (the one case the unchanged code does not
+// re-allocate before appending); otherwise it is a violation.
 package main
 
 import (
@@ -186,14 +198,78 @@ func sameBytes(a, b map[int]map[uint64]bool) bool {
 	return true
 }
 
+// the issues with the ranges of every reported reference in ascending order (a
+// reference that was never merged with another one is reported as it lies in
+// memory, and the validators sort range arrays in place)
+func canonIssues(is []oissue) string {
+	canon := func(rs []oref) []oref {
+		out := make([]oref, len(rs))
+		for i, r := range rs {
+			rr := append([][2]uint64(nil), r.ranges...)
+			sort.Slice(rr, func(a, b int) bool {
+				if rr[a][0] != rr[b][0] {
+					return rr[a][0] < rr[b][0]
+				}
+				return rr[a][1] < rr[b][1]
+			})
+			out[i] = oref{r.key, r.nomap, rr}
+		}
+		return out
+	}
+	s := ""
+	for _, x := range is {
+		s += fmt.Sprint(x.step, x.kind, canon(x.nm), canon(x.meas), ";")
+	}
+	return s
+}
+
 type expIssue struct {
 	step   int
 	coords string
 	what   string
 }
 
-func (f *hflow) oracle(c *gal.Ctx, idx int, res *runResult, vapPanic bool, oVAP []oissue, vfcPanic bool, oVFC []oissue, vni validator.Issues) {
+// blame: how a failure observed in stage k is to be reported
+type blame struct {
+	aliasing bool   // the log had been changed by then
+	known    string // finding id if it is the listed one
+	note     string
+}
+
+func (f *hflow) oracle(c *gal.Ctx, idx int, res *runResult, stages []stageObs, snap0 []string, smallSpare bool, vni validator.Issues) {
 	rank := f.ranks()
+
+	// ----- the log says the same after validation -----
+	blames := make([]blame, len(stages))
+	firstChanged := -1
+	for k, st := range stages {
+		if d := snapDiff(snap0, st.snap); d != "" {
+			if firstChanged < 0 {
+				firstChanged = k
+			}
+			b := blame{aliasing: true, note: fmt.Sprintf(" [the log had been rewritten by %s: %s]", stages[firstChanged].name(), snapDiff(snap0, stages[firstChanged].snap))}
+			if smallSpare {
+				b.known = findBacking
+			}
+			blames[k] = b
+		}
+	}
+	if firstChanged < 0 {
+		c.OracleOK()
+	} else {
+		st := stages[firstChanged]
+		what := fmt.Sprintf("validating the log rewrites it: after %s %s; every later validator or pass judges different measurements than the flow made",
+			st.name(), snapDiff(snap0, st.snap))
+		site := siteVAP
+		if st.kind == 1 {
+			site = siteVFC
+		}
+		if smallSpare {
+			c.OracleFailKnown(idx, findBacking, what, site, f.descr())
+		} else {
+			c.OracleFail(idx, what, site, f.descr())
+		}
+	}
 
 	// ----- walk the flow description -----
 	measuredBefore := f.newBitmap()
@@ -303,21 +379,50 @@ func (f *hflow) oracle(c *gal.Ctx, idx int, res *runResult, vapPanic bool, oVAP 
 	}
 
 	if !exact {
-		// ranges outside the artifacts / exotic mappers: only the correspondence check applies
+		// ranges outside the artifacts / exotic mappers: the bitmaps do not apply; the
+		// correspondence check does, and a second pass must repeat the first
 		c.Count("oracle-skipped-inexact")
+		for k := 2; k < len(stages); k++ {
+			a, b := stages[k-2], stages[k]
+			if a.panicked == b.panicked && canonIssues(a.iss) == canonIssues(b.iss) {
+				c.OracleOK()
+				continue
+			}
+			what := fmt.Sprintf("%s returns %v (panicked: %v), pass 1 over the same log returned %v (panicked: %v)%s", b.name(), b.iss, b.panicked, a.iss, a.panicked, blames[k].note)
+			site := siteVAP
+			if b.kind == 1 {
+				site = siteVFC
+			}
+			if blames[k].known != "" {
+				c.OracleFailKnown(idx, blames[k].known, what, site, f.descr())
+			} else {
+				c.OracleFail(idx, what, site, f.descr())
+			}
+		}
 		return
 	}
 
-	// ----- actors validator -----
-	f.oracleVAP(c, idx, rank, vapPanic, oVAP, expUnprot, emptyCodeStep)
-
-	// ----- final coverage -----
-	f.oracleVFC(c, idx, vfcPanic, oVFC, allMeasured)
+	for k, st := range stages {
+		if st.kind == 0 {
+			// ----- actors validator -----
+			f.oracleVAP(c, idx, rank, st, blames[k], expUnprot, emptyCodeStep)
+		} else {
+			// ----- final coverage -----
+			f.oracleVFC(c, idx, st, blames[k], allMeasured)
+		}
+	}
 }
 
-func (f *hflow) oracleVAP(c *gal.Ctx, idx int, rank map[string]int, vapPanic bool, oVAP []oissue,
+func (f *hflow) oracleVAP(c *gal.Ctx, idx int, rank map[string]int, st stageObs, bl blame,
 	expUnprot map[int]bitmap, emptyCodeStep map[int]bool) {
+	vapPanic, oVAP := st.panicked, st.iss
 	fail := func(known, what string) {
+		if st.pass > 1 || bl.aliasing {
+			what = st.name() + ": " + what + bl.note
+		}
+		if bl.aliasing {
+			known = bl.known
+		}
 		if known != "" {
 			c.OracleFailKnown(idx, known, what, siteVAP, f.descr())
 		} else {
@@ -370,8 +475,15 @@ func (f *hflow) oracleVAP(c *gal.Ctx, idx int, rank map[string]int, vapPanic boo
 	c.OracleOK()
 }
 
-func (f *hflow) oracleVFC(c *gal.Ctx, idx int, vfcPanic bool, oVFC []oissue, allMeasured bitmap) {
+func (f *hflow) oracleVFC(c *gal.Ctx, idx int, st stageObs, bl blame, allMeasured bitmap) {
+	vfcPanic, oVFC := st.panicked, st.iss
 	fail := func(known, what string) {
+		if st.pass > 1 || bl.aliasing {
+			what = st.name() + ": " + what + bl.note
+		}
+		if bl.aliasing {
+			known = bl.known
+		}
 		if known != "" {
 			c.OracleFailKnown(idx, known, what, siteVFC, f.descr())
 		} else {
